@@ -143,6 +143,21 @@ let do_dm () =
   done;
   print_endline (Buffer.contents out)
 
+(* OP circuit nsteps (ncand (0 | 1 nm (c x y)*nm)*ncand)* : model of bestSwap/bestInsert/bestSwapUpdate *)
+let do_op () =
+  let (cells, nets) = read_circuit () in
+  let n = List.length cells in
+  let all = List.init n nat_of_int in
+  let s = { ox = circuit_topology true cells nets all; oy = circuit_topology false cells nets all } in
+  let nsteps = nexti () in
+  let steps = rep nsteps (fun () ->
+    let ncand = nexti () in
+    OBest (rep ncand (fun () ->
+      if nexti () = 0 then None else
+      let nm = nexti () in Some (rep nm (fun () -> let c = nat_of_int (nexti ()) in let x = z () in let y = z () in (c, (x, y))))))) in
+  let tr = otrace s steps in
+  print_endline (zi (ovalue s) ^ " |" ^ String.concat "" (List.map (fun (v, b) -> Printf.sprintf " %s %d" (zi v) (b2i b)) tr))
+
 let () =
   try while true do
     let line = input_line stdin in
@@ -153,6 +168,7 @@ let () =
        toks := r;
        (try
          (match tag with
+          | "OP" -> do_op ()
           | "RL" -> do_rl ()
           | "RLC" -> do_rlc ()
           | "DM" -> do_dm ()
